@@ -128,6 +128,9 @@ func Sparse6Decode(s string) (*SparseGraph, error) {
 	}
 
 	//Check the initial byte and remove it.
+	if len(s) == 0 {
+		return &SparseGraph{}, errors.New("String too short - missing the initial :")
+	}
 	if s[0] != 58 {
 		return &SparseGraph{}, fmt.Errorf("Incorrect first character. Expected: : Found: %v", s[0])
 	}
@@ -143,9 +146,15 @@ func Sparse6Decode(s string) (*SparseGraph, error) {
 	var n uint64
 	i := 0
 
+	if len(s) == 0 {
+		return &SparseGraph{}, errors.New("String too short - unable to decode n")
+	}
+
 	if s[0] != 126 {
 		n = uint64(s[0] - 63)
 		i = 1
+	} else if len(s) < 4 {
+		return &SparseGraph{}, errors.New("String too short - unable to decode n")
 	} else if s[1] != 126 {
 		if len(s) < 4 {
 			return &SparseGraph{}, errors.New("String too short - unable to decode n")
@@ -161,6 +170,10 @@ func Sparse6Decode(s string) (*SparseGraph, error) {
 	}
 
 	g := NewSparse(int(n), nil)
+	if n <= 1 || i >= len(s) {
+		//There are no edges to decode.
+		return g, nil
+	}
 	v := 0
 	k := 64 - bits.LeadingZeros64(n-1)
 	var bitIndex uint
